@@ -1,5 +1,5 @@
 //@ unit U-SESSCUT
-//@ props C15 C14
+//@ props C15 C14 C11
 //@ verus-args --rlimit 200
 //@ config MAX_XORB_BYTES MAX_XORB_CHUNKS
 //@ rules-from cacheacct
@@ -39,6 +39,17 @@ impl SessionShardInterface {
     fn add_file_reconstruction_info(&self, file_info: MDBFileInfo) -> Result<()>
         requires /*@C15*/ segs_nonzero(file_info.segments@), segs_ok(file_info.segments@, Seq::<MerkleHash>::empty()),
     { unimplemented!() }
+    // C11: recording a xorb's chunk list in the session shard.  `vx_cas_recorded` is an uninterpreted predicate used as a
+    // capability: this stub's postcondition is the ONLY way to obtain it, and handing a non-empty xorb to the uploader requires it.
+    #[verifier::external_body]
+    fn add_cas_block(&self, cas_block_contents: MDBCASInfo) -> (r: Result<()>)
+        ensures /*@C11*/ r is Ok ==> vx_cas_recorded(cas_block_contents.metadata.cas_hash),
+    { unimplemented!() }
+}
+pub uninterp spec fn vx_cas_recorded(xorb_hash: MerkleHash) -> bool;
+impl Clone for MDBCASInfo {
+    #[verifier::external_body]
+    fn clone(&self) -> (r: MDBCASInfo) ensures r == *self { unimplemented!() }
 }
 impl MDBCASInfo {
     #[verifier::external_body]
@@ -173,6 +184,9 @@ impl FileUploadSession {
     #[verifier::external_body]
     fn register_new_xorb_for_upload(&self, xorb: RawXorbData) -> Result<()>
         requires /*@C15*/ xorb_le_limits(xorb), xorb_bytes_consistent(xorb),
+            // C11: every chunk stored in a new xorb is recorded in the session's shards - a non-empty xorb may be handed to the
+            // uploader only after its chunk list was recorded with add_cas_block
+            /*@C11*/ xorb.cas_info.metadata.num_bytes_in_cas > 0 ==> vx_cas_recorded(xorb.cas_info.metadata.cas_hash),
     { unimplemented!() }
 
 // the empty-xorb guard up to the point where the payload is moved into the upload task
@@ -236,6 +250,18 @@ impl FileUploadSession {
                 vx_it1.seq() == nf,
                 /*@C15*/ forall|k: int| 0 <= k < nf.len() ==> segs_nonzero((#[trigger] nf[k]).segments@),
                 forall|k: int| 0 <= k < nf.len() ==> segs_ok((#[trigger] nf[k]).segments@, Seq::<MerkleHash>::empty()),
+//@ end
+}
+
+// ---- C11, the other hand-over site: xorbs cut while a file is processed (data/src/deduplication_interface.rs) ----------------------
+// R11 stub of the struct (its second field, a JoinSet of global-dedup queries, plays no role here)
+pub struct UploadSessionDataManager { pub session: Arc<FileUploadSession> }
+impl UploadSessionDataManager {
+//@ extract data/src/deduplication_interface.rs in `impl DeduplicationDataInterface for UploadSessionDataManager` fn register_new_xorb
+//@ ret ret
+//@ contract
+        // what the deduper guarantees about a xorb it registers (U-DEDUP: xorb_within_limits, xorb_wf)
+        requires /*@C15*/ xorb_le_limits(xorb), xorb_bytes_consistent(xorb),
 //@ end
 }
 
